@@ -204,10 +204,33 @@ func c04HonestAs(r *ev.Run, sf stackFactory, g *rng.R, caseID, prop string) {
 				}
 				cf()
 				r.Eval(1)
-				if terr == nil {
+				if terr == nil && (prop == "C01" || prop == "C02") {
+					r.Count("wrong_identity_tell_reported_success", 1) // C01 speaks about what is delivered, not about what Tell returns
+				} else if terr == nil {
 					viol("wrong-identity-accepted", "a Tell/Ask to identity X at node Y's transport address reported success although Y does not hold X's key", map[string]any{"identity_of": x, "transport_of": y, "addr": string(text)})
 				} else {
 					r.NonTrivial(name + "/wrong-identity-refused")
+				}
+			}
+		}
+		time.Sleep(20 * time.Millisecond)
+		// afterwards the nodes that were (wrongly) dialled talk to the dialler: whatever of it is delivered must carry their
+		// own identity (a handshake refused for the wrong identity must not have left a usable session behind)
+		for x := 0; x < n; x++ {
+			for y := 0; y < n; y++ {
+				if x == y || (x+y)%2 == 1 {
+					continue
+				}
+				sender := st.Nodes[(y+1)%n]
+				if sender.Idx == x {
+					sender = st.Nodes[(y+2)%n]
+				}
+				for k := 0; k < 2; k++ {
+					p := led.mk(g, y, sender.Idx, 40+g.Intn(40), 0)
+					tctx, cf := context.WithTimeout(ctx, 150*time.Millisecond)
+					st.Nodes[y].Tell(tctx, sender.Idx, p2p.IOVec{p})
+					cf()
+					r.Eval(1)
 				}
 			}
 		}
